@@ -17,6 +17,8 @@ var textPieces = []string{
 	"0", "42", "-1", "true", "=", "/", "@", ":", "\\", "iq", "result",
 	// (text that means something to a format string, a template or a shell)
 	"%", "%s", "%20", "%!d", "{}", "$1", "`",
+	// (text that Unicode normalisation, case or width folding would change)
+	"e\u0301", "\u212b", "\u2126", "\uff21", "\u03c2", "EN", "en-US",
 }
 
 // Text draws a short string from an alphabet rich in XML-special, whitespace
